@@ -202,19 +202,25 @@ fn gen_ref(r: &mut Rng, vars: &[&str], depth: usize, nodiff_pct: usize) -> R {
     } else if depth < 3 && roll < 7 {
         let o = if r.below(100) < nodiff_pct { *r.pick(NODIFF_BIN) } else { *r.pick(DIFF_BIN) };
         bin(o, gen_ref(r, vars, depth + 1, nodiff_pct), gen_ref(r, vars, depth + 1, nodiff_pct))
-    } else if roll < 9 {
+    } else if roll < 9 && !vars.is_empty() {
         Var(r.pick(vars).to_string())
     } else {
-        Num(*r.pick(&[0.0, 1.0, 2.0, 0.5, 3.0, 1.5, 0.25]))
+        Num(*r.pick(&[0.0, 1.0, 0.0, 1.0, 2.0, 0.5, 3.0, 1.5, 0.25]))
     }
 }
 
 pub fn gen(r: &mut Rng, _tier: &str, _i: usize, stats: &mut BTreeMap<String, u64>, profile: &str) -> String {
-    let var_sets: &[&[&str]] = &[&["x", "y"], &["y", "z"], &["a"], &["x", "y", "z"], &["x"], &["b", "a"]];
+    // an empty variable set gives constant expressions (neutral-element shortcuts need them)
+    let var_sets: &[&[&str]] = &[&["x", "y"], &["y", "z"], &["a"], &["x", "y", "z"], &["x"], &["b", "a"], &[], &["x"]];
     let npool = 2 + r.below(3);
     let nodiff_pct = if profile == "diff" { *r.pick(&[0usize, 0, 0, 10]) } else { 8 };
     let mut pool = vec![];
     for _ in 0..npool {
+        if profile == "default" && r.chance(1, 4) {
+            // plain neutral elements and constants: the shortcuts of + * / pow fire on these
+            pool.push(r.pick(&["0.0", "1.0", "2.0", "(1.0 - 1.0)", "(0.5 + 0.5)"]).to_string());
+            continue;
+        }
         let vs = *r.pick(var_sets);
         pool.push(render(&gen_ref(r, vs, 0, nodiff_pct)));
     }
@@ -226,11 +232,13 @@ pub fn gen(r: &mut Rng, _tier: &str, _i: usize, stats: &mut BTreeMap<String, u64
     for _ in 0..nsteps {
         let i = r.below(16);
         let j = r.below(16);
-        let kind = match profile {
+        let after_p = steps.last().map(|l: &String| l.starts_with("p:")).unwrap_or(false);
+        let (i, kind) = if after_p && r.chance(1, 2) { (99, "s") } else { (i, "") };
+        let kind = if kind == "s" { "s" } else { match profile {
             "subs" => *r.pick(&["s", "s", "s", "b", "u"]),
             "diff" => *r.pick(&["p", "p", "p", "b", "s"]),
             _ => *r.pick(&["b", "b", "u", "+", "-", "*", "/", "^", "n"]),
-        };
+        } };
         let step = match kind {
             "b" => format!("b:{}:{}:{}", i, j, hex(if r.chance(1, 15) { "nosuchop" } else { *r.pick(&all_bin) })),
             "u" => format!("u:{}:{}", i, hex(if r.chance(1, 15) { "nosuchop" } else { *r.pick(&all_un) })),
@@ -421,7 +429,7 @@ pub fn run(f: &[&str]) -> String {
         for step in &hist {
             let g: Vec<&str> = step.split(':').collect();
             let n = pool.len();
-            let idx = |s: &str| s.parse::<usize>().unwrap() % n;
+            let idx = |s: &str| if s == "99" { n - 1 } else { s.parse::<usize>().unwrap() % n };
             let leak = |s: String| -> &'static str { Box::leak(s.into_boxed_str()) };
             // expected outcome by the reference
             let mut expect_err = false;
